@@ -28,6 +28,8 @@ def setup():
     for m in MODES:
         for rel in (False, True):
             vlib.build_nolibc(P, "mem_probe", m, rel)
+    for rel in (False, True):
+        vlib.build_nolibc(P, "mem_probe_watch", "static", rel, features=["watch"])
     argv, env, cwd = vlib.miri_cmd(H, "h_mem-miri", "h_mem", ["sample", 0, 0], [])
     vlib.run_one(argv, env=env, cwd=cwd, timeout=1800)
 
@@ -158,6 +160,18 @@ def run(ck, replay=None):
             except vlib.BuildError as ex:
                 ck.note_inconclusive("mem_probe %s %s failed to build: %s" % (m, "release" if release else "debug", str(ex)[-600:]))
 
+    # threaded no-libc variant: two-thread neighbour watcher on the linked symbols
+    two_cpus = len(os.sched_getaffinity(0)) >= 2
+    if two_cpus:
+        for release in (False, True):
+            try:
+                d = vlib.build_nolibc(P, "mem_probe_watch", "static", release, features=["watch"])
+                probes.append(("watch-static-%s" % ("release" if release else "debug"), d + "/mem_probe", release))
+            except vlib.BuildError as ex:
+                ck.note_inconclusive("mem_probe watch variant failed to build: %s" % str(ex)[-600:])
+    else:
+        ck.note_inconclusive("neighbour watcher needs 2 CPUs; only %d available" % len(os.sched_getaffinity(0)))
+
     jobs = []
     nsh = 4
     for prof, exe in (("debug", dbg), ("release", rel)):
@@ -170,11 +184,44 @@ def run(ck, replay=None):
         for i in range(nsh):
             jobs.append(("L1 placement %s shard %d/%d" % (prof, i, nsh),
                          dict(argv=[exe, "xplace", str(ck.seed * 613 + i), str(60 if quick else 600), str(i), str(nsh), str(2 if quick else 6)], timeout=3600), "xplace"))
+        # very large sizes: around every power of two 1 MiB .. 64 MiB and odd sizes in between
+        mult = 1 if quick else 3
+        for power, calls in ((20, 40), (21, 40), (22, 40), (23, 32), (24, 24), (25, 16), (26, 12)):
+            if quick and prof == "debug" and power > 23:
+                continue  # memory-bandwidth bound: the largest sizes once (release) in the quick tier
+            for fn in ((255,) if power < 24 else (0, 1, 2, 3, 4)):
+                jobs.append(("L1 huge %s 2^%d fn=%s" % (prof, power, "all" if fn == 255 else FNS[fn]),
+                             dict(argv=[exe, "huge", str(ck.seed * 17 + power), str(calls * mult), str(power), str(fn)], timeout=3600), "huge"))
+        # two-thread neighbour watcher (writes outside the destination that restore the old value)
+        if two_cpus:
+            jobs.append(("L1 watch %s" % prof, dict(argv=[exe, "watch", str(ck.seed), str(1_000_000 if quick else 5_000_000)], timeout=3600), "watch"))
         ng = 2 if quick else 8
         for i in range(ng):
             jobs.append(("L1 guard %s #%d" % (prof, i), dict(argv=[exe, "guard", str(ck.seed * 31 + i), str(12000 if quick else 100000)], timeout=3600), "guard"))
     pj = [(tag, exe, _probe_job(exe, 60 if release else 300)) for tag, exe, release in probes]
-    res = vlib.run_parallel([j for _, j, _ in jobs] + [j for _, _, j in pj])
+    # Miri: stratified sample of the same case generator
+    msh = 16
+    mcases = 130 if quick else 2500
+    argv, env, cwd = vlib.miri_cmd(H, "h_mem-miri", "h_mem", ["sample", 0, 0], [])
+    vlib.run_one(argv, env=env, cwd=cwd, timeout=1200)  # builds once
+    mj = []
+    for i in range(msh):
+        argv, env, cwd = vlib.miri_cmd(H, "h_mem-miri", "h_mem", ["sample", ck.seed * 7 + i, mcases], [])
+        mj.append(dict(argv=argv, env=env, cwd=cwd, timeout=3000))
+    # exactly-sized align-1 allocations: any access outside [p, p+n) is out of bounds for Miri
+    xsh = 6 if quick else 16
+    xcases = 50 if quick else 600
+    for i in range(xsh):
+        argv, env, cwd = vlib.miri_cmd(H, "h_mem-miri", "h_mem", ["exact", ck.seed * 13 + i, xcases], [])
+        mj.append(dict(argv=argv, env=env, cwd=cwd, timeout=3000))
+    import time
+    t0 = time.time()
+    # native jobs, probes and the Miri shards share the cores
+    all_res = vlib.run_parallel([j for _, j, _ in jobs] + [j for _, _, j in pj] + mj)
+    res = all_res[:len(jobs) + len(pj)]
+    vlib.log("[c08] %d native jobs + %d probes %.1fs; slowest: %s" % (len(jobs), len(pj), time.time() - t0,
+             ", ".join("%s %.1fs" % (w, r["wall"]) for w, r in sorted(zip([j[0] for j in jobs] + [p[0] for p in pj], res), key=lambda x: -x[1]["wall"])[:4])))
+    t0 = time.time()
     small_ok = 0
     place_ok = 0
     for k, ((what, _, kind), r) in enumerate(zip(jobs, res[:len(jobs)])):
@@ -188,18 +235,18 @@ def run(ck, replay=None):
     probe_ok = 0
     for (tag, exe, _), r in zip(pj, res[len(jobs):]):
         if _classify_probe(ck, r, exe, tag):
-            probe_ok += 1
+            if tag.startswith("watch-"):
+                ck.count("probe_watch_variants_completed")
+            else:
+                probe_ok += 1
 
-    # Miri: stratified sample of the same case generator
-    msh = 16
-    mcases = 130 if quick else 2500
-    argv, env, cwd = vlib.miri_cmd(H, "h_mem-miri", "h_mem", ["sample", 0, 0], [])
-    vlib.run_one(argv, env=env, cwd=cwd, timeout=1200)  # builds once
-    mj = []
-    for i in range(msh):
-        argv, env, cwd = vlib.miri_cmd(H, "h_mem-miri", "h_mem", ["sample", ck.seed * 7 + i, mcases], [])
-        mj.append(dict(argv=argv, env=env, cwd=cwd, timeout=3000))
-    for i, r in enumerate(vlib.run_parallel(mj)):
+    mres = all_res[len(jobs) + len(pj):]
+    vlib.log("[c08] slowest miri shard %.1fs" % max(r["wall"] for r in mres))
+    for i, r in enumerate(mres[msh:]):
+        what = "miri exact-size allocations shard %d" % i
+        if _miri_classify(ck, r, what) and ck.consume_result(r, what):
+            ck.count("miri_exact_shards_completed")
+    for i, r in enumerate(mres[:msh]):
         what = "miri sample shard %d" % i
         r["out"] = _one_sample(r["out"], i)
         if _miri_classify(ck, r, what) and ck.consume_result(r, what):
@@ -229,11 +276,19 @@ def run(ck, replay=None):
               "no-libc probes, not through Miri/sanitizers)")
     ck.assume("bcmp is judged on zero / non-zero only, memcmp on the sign; the int argument of memset is converted to unsigned char")
     ck.assume("Miri runs a sample (not the exhaustive domain); the no-libc probes cannot run under Miri or sanitizers")
+    ck.assume("sizes above 96 bytes are sampled: around every power of two from 1 MiB to 64 MiB (+-0..32, every start misalignment and end "
+              "alignment) and seeded odd sizes in between; strategy thresholds at other sizes between 40 bytes and 1 MiB are covered only by the "
+              "1 MiB sweep's samples; references for the large sizes are x86 `rep movsb/stosb`")
+    ck.assume("writes outside the destination that put the old value back are visible only (a) to Miri on exactly-sized align-1 allocations "
+              "(sampled) and (b) to the two-thread neighbour watcher when a concurrent update actually falls into the window: a silent "
+              "watcher run is weaker evidence than a silent content check; needs >= 2 CPUs")
     return ("each case = one call on buffers placed inside larger pattern-filled arenas; reference = volatile byte loops; the whole "
             "destination arena (red zones included), the source arena and the return pointer are compared. Small-n domain exhaustive "
             "(see exhaustive_domain), large n sampled up to 1 MiB around page/word/power-of-two sizes, guard-page placements "
             "(buffers ending/starting at PROT_NONE pages) under a fault handler, the full cross product of operand placements "
-            "(see placement_domain), a Miri sample, and the no-libc probe repeating the small domain and the placement cross product "
-            "on the linked symbols. distinct = (function, n class, head/body-aligned|misaligned/tail path, direction) "
+            "(see placement_domain), very large sizes (1..64 MiB) with 128-byte canaries and full-length comparison against rep-movsb/stosb references, "
+            "a two-thread neighbour watcher (second thread sole writer of the 7 bytes either side of the destination; a lost update = write "
+            "outside the destination), Miri on a sample and on exactly-sized align-1 allocations, and the no-libc probes repeating the small "
+            "domain, the placement cross product, a few very large calls and (threaded variant) the watcher on the linked symbols. distinct = (function, n class, head/body-aligned|misaligned/tail path, direction) "
             "cells per layer, guard-placement cells, placement cross-product cells (function, operand-1 class, operand-2 class, n class, first-difference class), "
             "probe (link mode, profile, route, function, n class, direction | operand classes) cells")
